@@ -8,6 +8,7 @@ import Driver.Plug.ParInvoke
 import Driver.Plug.SmallBuf
 import Driver.Plug.ResPool
 import Driver.Plug.TimedTask
+import Driver.Plug.Nested
 /-! The list of plug-in models (one import and one entry per model). -/
 namespace Driver
 
@@ -20,7 +21,8 @@ def plugins : List (String × Plug) := [
   ("pinvoke", Driver.PlugParInvoke.plug),
   ("smallbuf", Driver.PlugSmallBuf.plug),
   ("respool", Driver.PlugResPool.plug),
-  ("timedtask", Driver.PlugTimedTask.plug)
+  ("timedtask", Driver.PlugTimedTask.plug),
+  ("nested", Driver.PlugNested.plug)
 ]
 
 end Driver
